@@ -1397,7 +1397,7 @@ impl<'a> CompilerState<'a> {
                                                         }
                                                     }
                                                     Rule::ptr_offset => {
-                                                        let sign = if x.as_str().starts_with("-") { -1 } else { 1 };
+                                                        let sign: i32 = if x.as_str().starts_with("-") { -1 } else { 1 };
                                                         let offset = parse_int(
                                                             self,
                                                             x.into_inner()
@@ -1412,7 +1412,7 @@ impl<'a> CompilerState<'a> {
                                                             Rule::ptr_low => {
                                                                 let val = self.parse_calc(x.into_inner().next().unwrap().into_inner())?;
                                                                 if val == 255 {
-                                                                    VariableValue::LowPtr((id_name, sign * offset))
+                                                                    VariableValue::LowPtr((id_name, sign.checked_mul(offset).ok_or_else(|| self.syntax_error("Constant expression overflow", start))?))
                                                                 } else {
                                                                     return Err(self.syntax_error(&format!("Incorrect suffix to reference {}", id_name), start))
                                                                 }
@@ -1420,14 +1420,14 @@ impl<'a> CompilerState<'a> {
                                                             Rule::ptr_hi => {
                                                                 let val = self.parse_calc(x.into_inner().next().unwrap().into_inner())?;
                                                                 if val == 8 {
-                                                                    VariableValue::HiPtr((id_name, sign * offset))
+                                                                    VariableValue::HiPtr((id_name, sign.checked_mul(offset).ok_or_else(|| self.syntax_error("Constant expression overflow", start))?))
                                                                 } else {
                                                                     return Err(self.syntax_error(&format!("Incorrect suffix to reference {}", id_name), start))
                                                                 }
                                                             },
                                                             _ => return Err(self.syntax_error(&format!("Incorrect suffix to reference {}", id_name), start))
                                                         },
-                                                        None => VariableValue::LowPtr((id_name, sign * offset)),
+                                                        None => VariableValue::LowPtr((id_name, sign.checked_mul(offset).ok_or_else(|| self.syntax_error("Constant expression overflow", start))?)),
                                                     }
                                                     }
                                                     _ => {
@@ -1509,14 +1509,14 @@ impl<'a> CompilerState<'a> {
                                                                     }
                                                                 },
                                                                 Rule::ptr_offset => {
-                                                                    let sign = if x.as_str().starts_with("-") { -1 } else { 1 };
+                                                                    let sign: i32 = if x.as_str().starts_with("-") { -1 } else { 1 };
                                                                     let offset = parse_int(self, x.into_inner().next().unwrap().into_inner().next().unwrap())?;
                                                                     match pxxx.next() {
                                                                         Some(x) => match x.as_rule() {
                                                                             Rule::ptr_low => {
                                                                                 let val = self.parse_calc(x.into_inner().next().unwrap().into_inner())?;
                                                                                 if val == 255 {
-                                                                                    v.push(VariableValue::LowPtr((id_name, sign * offset)))
+                                                                                    v.push(VariableValue::LowPtr((id_name, sign.checked_mul(offset).ok_or_else(|| self.syntax_error("Constant expression overflow", start))?)))
                                                                                 } else {
                                                                                     return Err(self.syntax_error(&format!("Incorrect suffix to reference {}", id_name), start))
                                                                                 }
@@ -1524,14 +1524,14 @@ impl<'a> CompilerState<'a> {
                                                                             Rule::ptr_hi => {
                                                                                 let val = self.parse_calc(x.into_inner().next().unwrap().into_inner())?;
                                                                                 if val == 8 {
-                                                                                    v.push(VariableValue::HiPtr((id_name, sign * offset)))
+                                                                                    v.push(VariableValue::HiPtr((id_name, sign.checked_mul(offset).ok_or_else(|| self.syntax_error("Constant expression overflow", start))?)))
                                                                                 } else {
                                                                                     return Err(self.syntax_error(&format!("Incorrect suffix to reference {}", id_name), start))
                                                                                 }
                                                                             },
                                                                             _ => return Err(self.syntax_error(&format!("Incorrect suffix to reference {}", id_name), start))
                                                                         },
-                                                                        None => v.push(VariableValue::LowPtr((id_name, sign * offset))),
+                                                                        None => v.push(VariableValue::LowPtr((id_name, sign.checked_mul(offset).ok_or_else(|| self.syntax_error("Constant expression overflow", start))?))),
                                                                     }
                                                                 },
                                                                 _ => return Err(self.syntax_error(&format!("Incorrect suffix to reference {}", id_name), start))
@@ -1577,8 +1577,8 @@ impl<'a> CompilerState<'a> {
                                                         let offset = match pxxx.next() {
                                                             Some(x) => match x.as_rule() {
                                                                 Rule::ptr_offset => {
-                                                                    let sign = if x.as_str().starts_with("-") { -1 } else { 1 };
-                                                                    sign * parse_int(self, x.into_inner().next().unwrap().into_inner().next().unwrap())?
+                                                                    let sign: i32 = if x.as_str().starts_with("-") { -1 } else { 1 };
+                                                                    parse_int(self, x.into_inner().next().unwrap().into_inner().next().unwrap())?.checked_mul(sign).ok_or_else(|| self.syntax_error("Constant expression overflow", start))?
                                                                 },
                                                                 _ => return Err(self.syntax_error(&format!("Incorrect suffix to reference {}", s), start))
                                                             },
